@@ -581,14 +581,14 @@ func genHist13(r *rng) *Hist13 {
 			h.Ops = append(h.Ops, H13Op{K: "interfere", N: 1 + r.intn(4)})
 		}
 	}
-	if r.chance(0.3) {
+	if r.chance(0.4) {
 		// churn: the same generic source compiled again and again on ONE engine under
 		// alternating typings, a collection between the rounds (stale caches keyed by
 		// addresses or by source text alone)
 		e := r.intn(ne)
 		p := pickGeneric(r, h.Engines[e].UserFuns)
 		rounds := 3 + r.intn(6)
-		if r.chance(0.6) {
+		if r.chance(0.75) {
 			// many dead compilations under one typing, a collection, many attempts under another
 			ea := genericEnvs[r.intn(4)]
 			eb := genericEnvs[(indexOf(genericEnvs, ea)+2)%4] // the other typing class
